@@ -357,7 +357,8 @@ func c17Exec(mode string, begin bool, tier string) *Unit {
 	pg := &Prog{Tasks: []*T{
 		{Name: "root", Deps: []Ref{D("a"), D("b")}},
 		{Name: "a", Prefix: "A", RawLines: []string{"cmds:", "  - printf 'a1\\na2'; printf '\\n'", "  - printf 'a3\\n'"}},
-		{Name: "b", Prefix: "B", RawLines: []string{"cmds:", "  - printf 'b1\\n'; printf 'b2\\nb3\\n'"}},
+		// (an internal task: its output is wrapped like any other task's)
+		{Name: "b", Prefix: "B", Internal: true, RawLines: []string{"cmds:", "  - printf 'b1\\n'; printf 'b2\\nb3\\n'"}},
 	}}
 	opts := vlab.Options{Output: mode}
 	if mode == "group" && begin {
@@ -429,8 +430,37 @@ func c17Units(tier string) []*Unit {
 	if tier == "thorough" {
 		us = append(us, c17Direct(c17cfg{mode: "prefixed", threads: 3}))
 	}
-	us = append(us, c17Exec("group", false, tier), c17Exec("group", true, tier), c17Exec("prefixed", false, tier), c17ErrorOnlyIgnored(tier), c17ExternalProcessUnit(), c17IncludedOutputUnit())
+	us = append(us, c17Exec("group", false, tier), c17Exec("group", true, tier), c17Exec("prefixed", false, tier), c17ErrorOnlyIgnored(tier), c17LargeBlocks(), c17ExternalProcessUnit(), c17IncludedOutputUnit())
 	return us
+}
+
+// blocks larger than any buffer size one might pick (9 000 bytes each): still one contiguous block
+func c17LargeBlocks() *Unit {
+	pg := &Prog{Tasks: []*T{
+		{Name: "root", Deps: []Ref{D("a"), D("b")}},
+		{Name: "a", RawLines: []string{"cmds:", "  - printf 'a%09000d\\n' 1"}},
+		{Name: "b", RawLines: []string{"cmds:", "  - printf 'b%09000d\\n' 2"}},
+	}}
+	sc := scen("executor/group/blocks-of-9000-bytes", pg, vlab.Options{Output: "group"}, "root")
+	sc.Raw = true
+	blocks := []string{"a" + fmt.Sprintf("%09000d", 1) + "\n", "b" + fmt.Sprintf("%09000d", 2) + "\n"}
+	return &Unit{Name: sc.Name, Sc: sc, Bound: 2, Prune: true, Weight: 2, Check: func(x *vlab.Exec) []vlab.Violation {
+		out := generic("C17", x)
+		stream := ""
+		for _, e := range x.Trace {
+			if e.K == 'W' {
+				stream += e.Line
+			}
+		}
+		if !isPermutationConcat(stream, blocks) {
+			kind := "torn_or_lost"
+			if len(stream) == totalLen(blocks) {
+				kind = "interleaved_blocks"
+			}
+			out = append(out, vlab.V("C17", "group_block", "group:large:"+kind, fmt.Sprintf("the stream (%d bytes, starts %q) is not the two whole 9 001-byte blocks in either order", len(stream), firstN(stream, 40))))
+		}
+		return out
+	}}
 }
 
 // error_only through the executor: the block of a command appears iff the command failed —
